@@ -193,32 +193,42 @@ def repo_tests_validate(res, node='tests'):
     if not usable:
         return
 
-    def one(k):
-        r = usable[k]
-        K = dict(MapOrder=r['MapOrder'], Hd=r['Hd'], Names=r['Names'], MaxDepth=r['MaxDepth'], MaxLayers=r['MaxLayers'],
-                 MaxGen=1000000, KindSeq=({h: 'list' for h in r['Hd']},), ClsSeq=(r['cls'],))
-        gen = 'ResourcesTrace_repo%d' % k
-        consts, ov = write_module(res, gen, K)
-        t = {'ki': 1, 'ci': 1, 'fresh': False, 'init': r['init'], 'events': r['events']}
-        return t, tracecheck.validate(res, gen, 'repo%d' % k, [t], consts, overrides=ov, invariants=INVARIANTS, shards=1)
+    def consts_of(r):
+        return dict(MapOrder=r['MapOrder'], Hd=r['Hd'], Names=r['Names'], MaxDepth=r['MaxDepth'], MaxLayers=r['MaxLayers'],
+                    MaxGen=1000000, KindSeq=({h: 'list' for h in r['Hd']},), ClsSeq=(r['cls'],))
+
+    # tests over the same universe share a TLC run; tests that use handles only get the same (largest) handle pool
+    bare = [r for r in usable if len(r['MapOrder']) == 2 and r['Names'] == ['n0']]
+    for r in bare:
+        r['Hd'] = max((x['Hd'] for x in bare), key=len)
+        r['MaxLayers'] = 2
+    groups = {}
+    for k, r in enumerate(usable):
+        groups.setdefault(json.dumps(consts_of(r), sort_keys=True), []).append(k)
+    traces = [{'ki': 1, 'ci': 1, 'fresh': False, 'init': r['init'], 'events': r['events']} for r in usable]
+
+    def one(g):
+        members = groups[g]
+        gen = 'ResourcesTrace_repo%d' % members[0]
+        consts, ov = write_module(res, gen, consts_of(usable[members[0]]))
+        rej = tracecheck.validate(res, gen, 'repo%d' % members[0], [traces[k] for k in members], consts, overrides=ov,
+                                  invariants=INVARIANTS, shards=1)
+        return [(members[i] if i >= 0 else members[0], at) for i, at in rej]
 
     with ThreadPoolExecutor(8) as ex:
-        results = list(ex.map(one, range(len(usable))))
-    rejected = 0
-    for r, (t, rej) in zip(usable, results):
-        rejected += bool(rej)
-        _report(res, 'repository test %s' % r['test'], [t], rej, {'test': r['test']})
+        rej = sorted(x for part in ex.map(one, list(groups)) for x in part)
+    for k, at in rej[:5]:
+        _report(res, 'repository test %s' % usable[k]['test'], traces, [(k, at)], {'test': usable[k]['test']})
+    rejected = len({k for k, _at in rej})
     res.traces += len(usable) - rejected
-    cov['repository-tests'].update(accepted=len(usable) - rejected, rejected=rejected)
-    # self-test: one observation of the longest recorded test altered
-    k = max(range(len(usable)), key=lambda i: len(usable[i]['events']))
-    if not results[k][1]:
-        bad, at = corrupt(results[k][0])
+    cov['repository-tests'].update(accepted=len(usable) - rejected, rejected=rejected, tlc_runs=len(groups))
+    # self-test: one observation of the longest accepted test altered
+    ok = [k for k in range(len(usable)) if k not in {j for j, _at in rej}]
+    if ok:
+        k = max(ok, key=lambda i: len(usable[i]['events']))
+        bad, at = corrupt(traces[k])
         if bad is not None:
-            r = usable[k]
-            K = dict(MapOrder=r['MapOrder'], Hd=r['Hd'], Names=r['Names'], MaxDepth=r['MaxDepth'], MaxLayers=r['MaxLayers'],
-                     MaxGen=1000000, KindSeq=({h: 'list' for h in r['Hd']},), ClsSeq=(r['cls'],))
-            consts, ov = write_module(res, 'ResourcesTrace_repobad', K)
+            consts, ov = write_module(res, 'ResourcesTrace_repobad', consts_of(usable[k]))
             r2 = tracecheck.validate(res, 'ResourcesTrace_repobad', 'repo-corrupted', bad, consts, overrides=ov, shards=1)
             cov['repository-tests']['corrupted_trace_rejected_at_event'] = r2[0][1] if r2 else None
             if not (len(r2) == 1 and r2[0][1] == at):
